@@ -161,6 +161,79 @@ def check_program(files: Dict[str, str], refs: List[Tuple[str, List[str], str]],
     return uniq
 
 
+def rpc_only_file(pkg: str, target: str) -> str:
+    """A referrer whose ONLY references to the target package are rpc input/output types."""
+    out = ['syntax = "proto3";']
+    if pkg:
+        out.append(f"package {pkg};")
+    out.append(f'import "{path_of(target, "defs")}";')
+    out.append("message Local { int32 a = 1; }")
+    out.append("service OnlyRpc {")
+    out.append(f"  rpc FetchNested ({q(target, 'Top')}) returns ({q(target, 'Top.Nested')});")
+    out.append(f"  rpc StreamTops (stream {q(target, 'Top.Nested')}) returns (stream {q(target, 'Top')});")
+    out.append(f"  rpc FromLocal (Local) returns ({q(target, 'Top')});")
+    out.append("}")
+    return "\n".join(out) + "\n"
+
+
+def check_rpc_only(r: str, tg: str, t: Tally) -> List[Tuple[str, str]]:
+    files = {path_of(tg, "defs"): defs_file(tg), path_of(r, "svc"): rpc_only_file(r, tg)}
+    res = plugin.compile_protos(files, tag="c13r", want_descriptor=False)
+    t.inc("programs")
+    out: List[Tuple[str, str]] = []
+    try:
+        if res.rc != 0:
+            return [("plugin-failed", res.stderr[-300:])]
+        try:
+            mod = res.module(r)
+            tmod = res.module(tg)
+            mapping = mod.OnlyRpcBase().__mapping__()
+            pre = f"/{r + '.' if r else ''}OnlyRpc/"
+            a, b, c = mapping[pre + "FetchNested"], mapping[pre + "StreamTops"], mapping[pre + "FromLocal"]
+            t.inc("comparisons", 6)
+            if a.request_type is not tmod.Top or a.reply_type is not tmod.TopNested or \
+                    b.request_type is not tmod.TopNested or b.reply_type is not tmod.Top or \
+                    c.request_type is not mod.Local or c.reply_type is not tmod.Top:
+                out.append(("rpc-type", f"rpc-only referrer: handler types {a!r} {b!r} {c!r}"[:300]))
+            # and the stub side: real calls over grpclib's in-process channel
+            import asyncio
+            from grpclib.testing import ChannelFor
+
+            class Svc(mod.OnlyRpcBase):
+                async def fetch_nested(self, top):
+                    return tmod.TopNested(x=top.v + 1)
+
+                async def stream_tops(self, it):
+                    async for n in it:
+                        yield tmod.Top(v=n.x)
+
+                async def from_local(self, local):
+                    return tmod.Top(v=local.a)
+
+            async def drive():
+                async with ChannelFor([Svc()]) as ch:
+                    stub = mod.OnlyRpcStub(ch)
+                    r1 = await stub.fetch_nested(tmod.Top(v=4))
+                    r2 = [x async for x in stub.stream_tops([tmod.TopNested(x=1), tmod.TopNested(x=2)])]
+                    r3 = await stub.from_local(mod.Local(a=9))
+                    return r1, r2, r3
+
+            loop = asyncio.new_event_loop()
+            try:
+                r1, r2, r3 = loop.run_until_complete(asyncio.wait_for(drive(), 10))
+            finally:
+                loop.close()
+            t.inc("comparisons", 3)
+            if type(r1) is not tmod.TopNested or r1.x != 5 or [type(x) for x in r2] != [tmod.Top, tmod.Top] \
+                    or [x.v for x in r2] != [1, 2] or type(r3) is not tmod.Top or r3.v != 9:
+                out.append(("rpc-call", f"rpc-only referrer: calls returned {r1!r} {r2!r} {r3!r}"[:300]))
+        except Exception as e:
+            out.append(("rpc-only-unresolvable", f"{type(e).__name__}: {e}"[:300]))
+    finally:
+        res.cleanup()
+    return out
+
+
 def pair_program(r: str, tg: str):
     files = {path_of(tg, "defs"): defs_file(tg), path_of(r, "refs"): refs_file(r, [tg])}
     return files, [(r, [tg], "")]
@@ -218,6 +291,7 @@ def check_wkt(r: str, t: Tally) -> List[Tuple[str, str]]:
 def plan(tier: str):
     pk = packages(3)
     items: List[Tuple[str, Any]] = [("pair", (r, t)) for r in pk for t in pk]
+    items += [("rpconly", (r, t)) for r in pk for t in pk if r != t]
     # all packages referencing each other at once (circular): depth <= 2 in the quick tier
     items.insert(0, ("all", pk if tier == "thorough" else packages(2)))
     items += [("wkt", r) for r in pk]
@@ -244,6 +318,11 @@ def _shard(shard: int, nshards: int, extra) -> Tally:
             label = [f"all-at-once-{len(arg)}"]
             case = {"kind": "all", "packages": arg}
             fails = check_program(files, refs, label, t)
+        elif kind == "rpconly":
+            r, tg = arg
+            label = ["rpc-only:" + relation(r, tg)]
+            case = {"kind": "rpconly", "referrer": r, "target": tg}
+            fails = check_rpc_only(r, tg, t)
         else:
             label = ["wkt-depth%d" % (len(arg.split(".")) if arg else 0)]
             case = {"kind": "wkt", "referrer": arg}
@@ -284,6 +363,9 @@ def replay(case: dict) -> List[Violation]:
         files, refs = pair_program(case["referrer"], case["target"])
         label = [relation(case["referrer"], case["target"])]
         fails = check_program(files, refs, label, t)
+    elif case["kind"] == "rpconly":
+        label = ["rpc-only:" + relation(case["referrer"], case["target"])]
+        fails = check_rpc_only(case["referrer"], case["target"], t)
     elif case["kind"] == "all":
         files, refs = all_program(case["packages"])
         label = [f"all-at-once-{len(case['packages'])}"]
